@@ -105,17 +105,15 @@ impl TryFrom<&str> for FeelYearsAndMonthsDuration {
       // the total number of months must fit in i64, otherwise the literal is invalid
       let out_of_range = || err_invalid_years_and_months_duration_literal(value);
       if let Some(years_match) = captures.name("years") {
-        if let Ok(years) = years_match.as_str().parse::<u64>() {
-          let months_in_years = i64::try_from(years).ok().and_then(|years| years.checked_mul(MONTHS_IN_YEAR));
-          total_months = months_in_years.and_then(|months| total_months.checked_add(months)).ok_or_else(out_of_range)?;
-          is_valid = true;
-        }
+        let years = years_match.as_str().parse::<u64>().map_err(|_| out_of_range())?;
+        let months_in_years = i64::try_from(years).ok().and_then(|years| years.checked_mul(MONTHS_IN_YEAR));
+        total_months = months_in_years.and_then(|months| total_months.checked_add(months)).ok_or_else(out_of_range)?;
+        is_valid = true;
       }
       if let Some(months_match) = captures.name("months") {
-        if let Ok(months) = months_match.as_str().parse::<u64>() {
-          total_months = i64::try_from(months).ok().and_then(|months| total_months.checked_add(months)).ok_or_else(out_of_range)?;
-          is_valid = true;
-        }
+        let months = months_match.as_str().parse::<u64>().map_err(|_| out_of_range())?;
+        total_months = i64::try_from(months).ok().and_then(|months| total_months.checked_add(months)).ok_or_else(out_of_range)?;
+        is_valid = true;
       }
       if captures.name("sign").is_some() {
         total_months = -total_months;
